@@ -359,6 +359,8 @@ def run(ch, ctx, fault=None):
 
             def on_sleep(secs):
                 j = len(shown)
+                check(j < 500, "animation_did_not_end", dict(info, sleeps=j),
+                      "old_api.animate")
                 f = seq[j] if j < len(seq) else None
                 shown.append(f)
                 inf = dict(info, frame_index=j, expected_frame=f, scroll=s_anim)
